@@ -166,3 +166,36 @@ Theorem C16_sequential_get_no_leak : forall u,
   a = Done 0 /\ b = Done 0 /\ count_dials s u = 1 /\ forall c, orphan s c = false.
 Proof. exact sequential_get_no_leak. Qed.
 Print Assumptions C16_sequential_get_no_leak.
+
+(* Message size limits, with the direction convention main.go:185-186 and
+   grpc_handler.go:264 have today: proxy.grpcmaxrxmsgsize bounds what fabio receives (the
+   caller's request, and the backend's response), proxy.grpcmaxtxmsgsize what it sends to the
+   caller.  A request within Rx reaches the backend whatever Tx is; a call whose request is
+   within Rx and whose response is within both limits is relayed with status OK. *)
+Theorem C16_relay_within_limits : forall rx tx req resp,
+  req <= rx -> resp <= tx -> resp <= rx -> relay_sized rx tx req resp = mksized true true 0.
+Proof. exact relay_within_limits. Qed.
+Print Assumptions C16_relay_within_limits.
+
+Theorem C16_request_limit_is_rx : forall rx tx req resp,
+  sz_backend_got (relay_sized rx tx req resp) = true <-> req <= rx.
+Proof. exact request_limit_is_rx. Qed.
+Print Assumptions C16_request_limit_is_rx.
+
+Theorem C16_response_limit_is_min : forall rx tx req resp,
+  sz_caller_got (relay_sized rx tx req resp) = true <-> req <= rx /\ resp <= tx /\ resp <= rx.
+Proof. exact response_limit_is_min. Qed.
+Print Assumptions C16_response_limit_is_min.
+
+Theorem C16_sized_status : forall rx tx req resp,
+  sz_code (relay_sized rx tx req resp) = 0 <-> sz_caller_got (relay_sized rx tx req resp) = true.
+Proof. exact sized_status. Qed.
+Print Assumptions C16_sized_status.
+
+Theorem C16_relay_within_limits_nonvacuous :
+  relay_sized 8388608 1048576 2097152 10 = mksized true true 0 /\
+  relay_sized 8388608 1048576 10 2097152 = mksized true false 8 /\
+  relay_sized 1048576 8388608 10 2097152 = mksized true false 8 /\
+  relay_sized 1048576 8388608 2097152 10 = mksized false false 8.
+Proof. exact relay_within_limits_nonvacuous. Qed.
+Print Assumptions C16_relay_within_limits_nonvacuous.
